@@ -285,7 +285,9 @@ def t_externs(k):
 
 def t_nested_window_point(k):
     """window of a window: the outer one starts at a non-zero row, the inner one fixes that
-    dimension with a point; consumed directly and through a callee (resize/fold/reuse candidates)"""
+    dimension with a point; the buffer is written and read ONLY through such nested windows
+    (directly and through a callee), so every location-set based check (resize/fold/reuse/stage)
+    has to compose the two windows correctly"""
     lo = [4, 2, 3][k % 3]
     pt = [2, 1, 0][(k // 3) % 3]
     rd = {
@@ -296,8 +298,8 @@ def t_nested_window_point(k):
     }
     body = [
         ["alloc", "buf", "f32", ["8", "8"], "DRAM"],
-        ["for", "i", str(lo), str(lo + 4), [["for", "j", "0", "8", [["assign", "buf", ["i", "j"], "x[j] + y[i - " + str(lo) + "]"]], "seq"]], "seq"],
         ["window", "w", "buf", [["iv", str(lo), str(lo + 4)], ["iv", "0", "8"]]],
+        ["for", "i", "0", "4", [["window", "ri", "w", [["pt", "i"], ["iv", "0", "8"]]], ["for", "j", "0", "8", [["assign", "ri", ["j"], "x[j] + y[i]"]], "seq"]], "seq"],
         ["window", "r", "w", [["pt", str(pt)], ["iv", "0", "8"]]],
         ["for", "j", "0", "8", [["reduce", "y", ["0"], "r[j]"]], "seq"],
         ["call", "rowsum", ["y[1:2]", f"w[{pt + 1}, 0:8]"]],
